@@ -169,3 +169,39 @@ WITNESSES += [
     dict(id="c08-generic-spin-lost", prop="C08", file=E, expect="R08e",
          old="        kwargs = {f\"{space}_{spin}\" if spin else space: len(indices)", new="        kwargs = {space: len(indices)"),
 ]
+
+Y = "symmetry.py"
+_F40_FIXED = (
+    "        linked_spaces = []\n        for link in links:\n            linked = link.copy()\n            disjoint = []\n"
+    "            for other_linked in linked_spaces:\n                if linked & other_linked:\n                    linked.update(other_linked)\n"
+    "                else:\n                    disjoint.append(other_linked)\n            disjoint.append(linked)\n            linked_spaces = disjoint\n")
+WITNESSES += [
+    # F40 reverted: links merged in a single non-transitive pass
+    dict(id="c08-f40-revert", prop="C08", file=Y, expect="R08f", old=_F40_FIXED,
+         new="        if len(links) == 0:  # no links, all spaces separated\n            linked_spaces = []\n"
+             "        elif len(links) == 1:  # exactly 2 spaces are linked\n            linked_spaces = links\n"
+             "        else:  # more than 2 spaces linked: either ov, ox or ov, xy\n            treated = set()\n            linked_spaces = []\n"
+             "            for i, linked_sp in enumerate(links):\n                if i in treated:\n                    continue\n"
+             "                linked = linked_sp.copy()\n                for other_i in range(i+1, len(links)):\n"
+             "                    if other_i in treated:\n                        continue\n"
+             "                    if linked_sp & links[other_i]:\n                        linked.update(links[other_i])\n"
+             "                        treated.add(other_i)\n                linked_spaces.append(linked)\n"),
+    # the repaired merge spelled as union-find over the index classes
+    dict(id="c08-ok-f40-union-find", prop="C08", file=Y, expect=None, old=_F40_FIXED,
+         new="        parent = {}\n\n        def find(sp):\n            parent.setdefault(sp, sp)\n            while parent[sp] != sp:\n"
+             "                sp = parent[sp]\n            return sp\n\n        for link in links:\n            first, *others = sorted(link)\n"
+             "            for other in others:\n                parent[find(other)] = find(first)\n"
+             "        components = {}\n        for sp in list(parent):\n            components.setdefault(find(sp), set()).add(sp)\n"
+             "        linked_spaces = list(components.values())\n"),
+    # the groups are disjoint, so testing the new link itself instead of the growing union is the same merge
+    dict(id="c08-ok-product-merge-link-test", prop="C08", file=Y, expect=None,
+         old="                if linked & other_linked:\n                    linked.update(other_linked)\n",
+         new="                if link & other_linked:\n                    linked.update(other_linked)\n"),
+    # groups emitted in reverse name order is still a reordering of independent groups
+    dict(id="c08-ok-product-reverse-groups", prop="C08", file=Y, expect=None,
+         old="        args = [val for _, val in sorted(splitted.items())]", new="        args = [splitted[key] for key in sorted(splitted, reverse=True)]"),
+    # a permutation is assigned to its own classes only, not to the linked group
+    dict(id="c08-product-no-linking", prop="C08", file=Y, expect="R08f",
+         old="                if any(sp in linked_sp for sp in space):\n                    space = linked_sp\n                    break\n",
+         new="                if all(sp in linked_sp for sp in space) and len(space) > 1:\n                    space = linked_sp\n                    break\n"),
+]
